@@ -3,6 +3,7 @@ package rules
 import (
 	"fmt"
 	"go/token"
+	"go/types"
 	"strings"
 
 	"golang.org/x/tools/go/ssa"
@@ -33,6 +34,7 @@ func c02(c *Ctx) (*report.Result, error) {
 		checkHandOffLoop(c, res, f)
 		res.RuleDoc["O2.5"] = "a message handed to a target stream is a fresh object: nothing reachable from it is written after the hand-over (the sender goroutine rewrites ids in it later)"
 		checkNoWriteAfterHandover(c, res, "O2.5", f, "routed message")
+		checkFreshPerHandover(c, res, "O2.5", f)
 	}
 	res.Explanation = "SSA of proxy.NewClusterConnection (which shard count the RoutingParameters closure selects for the server that forwards to each cluster) and of the chain buildProxyServer -> NewAdminServiceProxyServer -> StreamWorkflowReplicationMessages -> handleStream -> streamRouting -> proxyStreamReceiver (the count and the reverse client reach the receiver unchanged), of recvReplicationMessages (arguments of WorkflowIDToHistoryShard, the retry loop's bookkeeping) and of proxyStreamSender.sendReplicationMessages (who writes nextProxyTaskID, by how much, under which lock, followed by which ring append; which values the id fields and the exclusive high watermark receive). Necessary shapes of 'each task once, to the owning shard, with strictly increasing ids and a covering watermark'; exactly-once, ordering and watermark monotonicity under interleavings of several sources are not decided. Observation (no rule): tasks without RawTaskInfo / namespace id / workflow id are dropped from the grouping without an error."
 	res.Assumptions = []string{"servercommon.WorkflowIDToHistoryShard is Temporal's shard hash"}
@@ -844,4 +846,111 @@ func checkOutstandingOnExit(c *Ctx, res *report.Result, rule string) {
 		}
 	}
 	res.Check(ok, rule, "(*proxyStreamSender).Run: outstanding ring entries are examined when the stream ends", instrPos(c.Prog, wait), "the id ring is consulted after the shutdown wait or in a deferred call", "when the target stream ends, Run closes its channel and unregisters without looking at the id ring: tasks that were handed to this stream and not confirmed are lost with it, no source shard is made to resend them, and the next watermark confirmed by the reconnected (idle) target stream acknowledges them to their source")
+}
+
+// checkFreshPerHandover: a RoutedMessage handed to a target (closure that sends it on a channel, or
+// Deliver*ToShardOwner) inside a loop is a fresh struct with a fresh payload on every iteration: from the hand-over
+// no path leads back to the same hand-over without re-executing the allocation of the struct and the
+// instruction that produced its Resp pointer. Target senders rewrite the message in place (task ids, watermark),
+// so an object shared between targets carries one target's ids on another target's stream.
+func checkFreshPerHandover(c *Ctx, res *report.Result, rule string, f *ssa.Function) {
+	isRouted := func(t types.Type) bool {
+		if p, ok := t.Underlying().(*types.Pointer); ok {
+			return flow.NamedIs(p.Elem(), proxyPkg, "RoutedMessage")
+		}
+		return false
+	}
+	type use struct {
+		at ssa.Instruction
+		x  *ssa.Alloc
+	}
+	var uses []use
+	for _, b := range f.Blocks {
+		for _, ins := range b.Instrs {
+			call, ok := ins.(ssa.CallInstruction)
+			if !ok {
+				continue
+			}
+			cc := call.Common()
+			if cc.IsInvoke() && (cc.Method.Name() == "DeliverMessagesToShardOwner") {
+				for _, a := range cc.Args {
+					if al, isA := a.(*ssa.Alloc); isA && isRouted(al.Type()) {
+						uses = append(uses, use{ins, al})
+					}
+				}
+			}
+			if mc, isMC := cc.Value.(*ssa.MakeClosure); isMC {
+				fn, _ := mc.Fn.(*ssa.Function)
+				sends := false
+				if fn != nil {
+					for _, sel := range selectsOf(fn) {
+						for _, st := range sel.States {
+							if st.Dir == types.SendOnly {
+								sends = true
+							}
+						}
+					}
+				}
+				if !sends {
+					continue
+				}
+				for _, bnd := range mc.Bindings {
+					if al, isA := bnd.(*ssa.Alloc); isA && isRouted(al.Type()) {
+						uses = append(uses, use{ins, al})
+					}
+				}
+			}
+		}
+	}
+	n := 0
+	for _, u := range uses {
+		self := func(x ssa.Instruction) bool { return x == u.at }
+		// only hand-overs that sit on a cycle (fan-out loops, retry loops) are of interest
+		if r0 := flow.FindPath(flow.After(u.at), self, func(ssa.Instruction) bool { return false }, nil); !r0.Found {
+			continue
+		}
+		n++
+		construct := fmt.Sprintf("%s: message hand-over #%d (in a loop) is a fresh object with a fresh payload per hand-over", shortFn(f), n)
+		if r := flow.FindPath(flow.After(u.at), self, func(x ssa.Instruction) bool { return x == ssa.Instruction(u.x) }, nil); r.Found {
+			res.Viol(rule, construct, instrPos(c.Prog, u.at), "the same RoutedMessage object (allocated at "+instrPos(c.Prog, u.x)+", outside the loop) is handed to several targets: each target's sender rewrites its task ids and watermark in place, so one target's stream can carry another target's ids/watermark")
+			continue
+		}
+		fs, _ := flow.FieldStores(u.x)
+		v := fs["Resp"]
+		if v == nil {
+			// whole-struct store of a literal
+			if w := flow.StructFieldOrigin(u.x, "Resp", 0); w != nil {
+				v = w
+			}
+		}
+		var def ssa.Instruction
+		cur := v
+		for i := 0; i < 5 && cur != nil; i++ {
+			switch y := cur.(type) {
+			case *ssa.TypeAssert:
+				cur = y.X
+				continue
+			case *ssa.ChangeInterface:
+				cur = y.X
+				continue
+			case *ssa.MakeInterface:
+				cur = y.X
+				continue
+			case *ssa.Call:
+				def = y
+			case *ssa.Alloc:
+				def = y
+			}
+			break
+		}
+		if def == nil {
+			res.Undec(rule, construct, instrPos(c.Prog, u.at), "the origin of the message's Resp pointer was not recognised as a fresh allocation or a Clone call ("+flow.Describe(v)+")")
+			continue
+		}
+		r := flow.FindPath(flow.After(u.at), self, func(x ssa.Instruction) bool { return x == def }, nil)
+		res.Check(!r.Found, rule, construct, instrPos(c.Prog, u.at), "struct and payload are (re)created on every way back to the hand-over", "the payload pointer produced at "+instrPos(c.Prog, def)+" is reused for the next hand-over without being re-created: several targets receive the same message object and rewrite it in place")
+	}
+	if n < 2 {
+		res.Undec(rule, shortFn(f)+": hand-overs in loops", fnPos(c.Prog, f), fmt.Sprintf("%d found, 3 confirmed by hand (local watermark fan-out, remote watermark fan-out, task retry loop)", n))
+	}
 }
